@@ -69,6 +69,7 @@ type Op struct {
 	Name string `json:"name,omitempty"` // consumer name (create)
 	Plmn bool   `json:"plmn,omitempty"`
 	Addr bool   `json:"addr,omitempty"`
+	Lead int    `json:"lead,omitempty"` // respell: leading zeros in front of the rating group's decimal digits
 }
 
 type Hist struct {
